@@ -349,6 +349,20 @@ package protocol
 //@   option timeout 240
 //@   loop 0 unroll 3
 
+//@ property C20 C17
+// Record-set decoders of the Transport/Client fetch path: sizes and counts read from the wire (v0/v1 message size, v2 batch
+// length, v2 record count) are checked before they are used as a decoder budget or an allocation size; a malformed value
+// is an error, never a panic or an allocation the frame cannot back.
+//@ func readMessage
+//@   requires 0 <= d.remain && d.remain <= 0x7fffffff
+//@   option noframe
+//@   modifies heap
+//@ func (*RecordSet).readFromVersion2
+//@   requires 0 <= d.remain && d.remain <= 0x7fffffff
+//@   option noframe
+//@   option only pre make alloc slice index
+//@   option upto "for i := range records {"
+//@   modifies heap
 //@ property C05 C04
 // v1 wrapper with relative inner offsets (Kafka message-set documentation): the wrapper's own offset is the absolute offset
 // of its LAST inner message, the inner messages carry relative offsets 0..n-1; every inner offset is rewritten to
